@@ -45,6 +45,16 @@ THEOREMS = {
     "C04_refuses_nan_interaction_refuted": "AS CODED the interaction model accepts a NaN observation (witness)",
     "C04_screen_noninterference": "over the shared Screen model: constructor arguments that differ only in masked observation bit patterns are accepted alike and give equal training data (both models) and equal downstream projection",
     "C04_downstream_frame": "the projection handed to distance / scoring / selection is equal for screens that differ only in masked values, hence so is every function of it; the training input is such a function",
+    "C04_model_is_source_add_observations": "the Gallina translation of the whole method BayesianModel.add_observations, regenerated from /repo's core.py on this run (Generated/SrcTrain.v), equals the model's add_observations for every model class (any _add_observations, any state), every object and every row list: ValueError (tag 1) unless observation_mask.all(), else self._add_observations(data)",
+    "C04_model_is_source_legacy_update": "the translations of LegacySparseDrugComboImpl._update and LegacySparseDrugComboInteractionImpl._update (n = self.n_obs(); four list appends; three defaultdict(list) bucket appends of n) map the object holding the training rows st (legacy_of st) to the object holding st ++ [(y, cl, dd1, dd2)], for EVERY st; n_obs = len(st)",
+    "C04_model_is_source_legacy_index_invariant": "after ANY sequence of translated _update calls on a fresh object the four lists are the columns of the calls and each of cline_idxs / dd1_idxs / dd2_idxs has exactly one entry per id of its column (in order of first occurrence) whose value is the strictly ascending list of exactly the row numbers (from 0) at which the column holds that id",
+    "C04_model_is_source_sdc_add_observations": "the translation of the whole method SparseDrugCombo._add_observations (>= 0 check, astype(float32), np.clip with the bounds written in the call, logit, NaN check, the zip loop calling the translated _update on dd[0], dd[1] for rows with mask) equals the model sdc_inner on every reachable wrapped object: same error tag, or the object holding the model's new training rows",
+    "C04_model_is_source_sdc_add": "translated add_observations around the translated SparseDrugCombo._add_observations = the model sdc_add",
+    "C04_model_is_source_create_single_treatment_effect_map": "the translation of the whole function data.create_single_treatment_effect_map (arity check, single-treatment mask, the two loops over np.unique, control entry 1.0, `continue` when no single-agent row, np.mean) run on the three columns of any row list equals the model single_effect_map (the dict as the list of its entries in insertion order = sorted by key); ValueError (tag 4) when arity < 2",
+    "C04_model_is_source_create_single_treatment_effect_map_c20": "the same translation, instantiated at exact rationals (1, qmean), equals C20's column-level model Synergy.effect_map (used by calculate_synergy / create_single_treatment_effect_array) under the hypotheses that treatment_ids is an n x arity array and sample_ids / observation have n entries - a fact about every call with aligned arrays, NOT about misaligned ones (numpy's IndexError, which C20's model covers and the translation's mask primitive does not); the arity ValueError is tag 4 here, 1 in C20",
+    "C04_model_is_source_interaction_add_observations": "the translation of the whole method SparseDrugComboInteraction._add_observations (arity != 2, >= 0 check, single_effect_lookup.update(translated create_single_treatment_effect_map), combo_mask = controls per row == 0, the five masked columns, logit(astype(float32)), NaN check, the zip loop calling the translated _update) equals the interaction model int_inner with ALL THREE repair switches true, for every lookup, every reachable wrapped object, arity and row list",
+    "C04_model_is_source_interaction_add": "translated add_observations around the translated SparseDrugComboInteraction._add_observations = the model int_add true true true",
+    "C04_source_variant_unique": "the translation determines the model's switches: (fixed_mask, guard_neg, guard_nan) = (true, true, true) is the ONLY setting for which the interaction model equals the translated source on all inputs (three vm_compute witnesses)",
 }
 ASSUMPTIONS = [
     "rows are at id level (Screen.sample_ids / treatment_ids / plate_ids of the real constructor); the names->ids encoding is the shared Screen model (C01), run here on every rel/cli case and compared with the real screen's ids, mask and exact observation values",
@@ -58,8 +68,40 @@ EXPLANATION = ("Model: Model/TrainScreen.v (id-level rows of a screen built by t
                "observation bit patterns) and Model/Train.v (add_observations guard, subset_observed, SparseDrugCombo._add_observations, "
                "create_single_treatment_effect_map, SparseDrugComboInteraction._add_observations with three repair switches, "
                "downstream projection).  The harness probes the real interaction model once to find which switches describe "
-               "it (all false on the unchanged tree) and requires exact correspondence with that variant, and with the fully "
-               "repaired variant whenever the property predicate holds.")
+               "it (all false before the repair 49949ee, all true since) and requires exact correspondence with that variant, and with the fully "
+               "repaired variant whenever the property predicate holds.  "
+               "SOURCE LINKS (C04_model_is_source_*, C04_source_variant_unique): BayesianModel.add_observations (core.py), "
+               "SparseDrugCombo._add_observations, LegacySparseDrugComboImpl.n_obs / _update (sparse_combo.py), "
+               "SparseDrugComboInteraction._add_observations, LegacySparseDrugComboInteractionImpl.n_obs / _update "
+               "(sparse_combo_interaction.py) and create_single_treatment_effect_map (data.py) are re-translated WHOLE from /repo's "
+               "current text into Gallina on every run (harness/py2gal.py, configurations C04_* of harness/src_functions.py, output "
+               "coq/theories/Generated/SrcTrain.v; a function outside the fragment, a changed parameter list, an undeclared variable or an "
+               "unmatched library call stops the build) and the theorems prove the Train.v models EQUAL to the translations for all inputs, "
+               "so every C04 training theorem is a theorem about the translated source.  Representation: a ScreenBase is the list of its "
+               "id-level rows (Train.trow), each 1-d array attribute the column of the rows; the wrapped legacy object is Train.legacy (four "
+               "lists, three insertion-ordered id -> row-number-list dictionaries), related to the model's list of training trips by the "
+               "explicit map legacy_of (columns + index_dict = positions of each id); the translated _update maps legacy_of st to "
+               "legacy_of (st ++ [trip]) for every st, so the links hold on every object reachable from a fresh one.  The links TRUST the "
+               "translator and exactly these primitives (one attribute / numpy / scipy call each; loops, branches, raises, zip unpacking, "
+               "the dict stores, the calls between the translated functions come from the translation): "
+               "data.observations / .treatment_ids / .sample_ids / .observation_mask = the columns of the rows; data.treatment_arity and "
+               "treatment_ids.shape[1] = the arity parameter; a.all() / a.any() / np.any(a) = forallb / existsb; `a >= 0.0` = elementwise "
+               "o_nonneg (NaN >= 0 False, -inf False); a.astype(np.float32) = elementwise cast32 r32 (r32 any function: the float32 "
+               "rounding is a parameter of every theorem); np.clip(a, a_min=lo, a_max=hi) = elementwise oclip_at lo hi (NaN propagates, "
+               "infinities clipped; lo, hi are the float literals of the call as exact decimals, proved equal to Generated/Consts' bounds "
+               "by conversion); logit(a) = elementwise ologit orc (0 -> -inf, 1 -> +inf, outside [0,1] and NaN -> NaN, (0,1) the oracle); "
+               "np.isnan(a) = elementwise o_isnan; zip of 4 / 5 arrays = zip4 / zip5 (stops at the shortest); dd[i] on an id row = id_at "
+               "(IndexError tag 4); a[mask] = select (entries where the mask is True); a[mask, :] likewise for rows; a[mask, 0] / a[mask, 1] "
+               "= column 0 / 1 of the selected rows; np.sum(a == CONTROL_SENTINEL_VALUE, axis=1) = controls per row (sentinel from "
+               "Generated/Consts.v); `counts == n` and `a == v` on integer arrays = elementwise =?; a & b = elementwise andb; "
+               "np.sort(x, axis=1)[:, -1] = the row maxima; np.unique(a) = sort_uniq Z.compare (sorted distinct); a.flatten() = concat; "
+               "np.mean(a) = omean; the literal 1.0 = OFin 1; result[(s, t)] = v = PyRt.dict2_set (insertion-ordered dict keyed by pairs); "
+               "d[k].append(v) on the three index dictionaries = PyRt.dict_append, trusting that __init__ creates them as "
+               "defaultdict(list) (a missing key starts from the empty list); self.n_obs() / wrapped_model._update(...) / "
+               "create_single_treatment_effect_map(...) / self._add_observations(data) = the translated callee; "
+               "single_effect_lookup.update(m) = Train.lk_update (the lookup kept sorted by key).  Not translated: the __init__ methods "
+               "(that the lists start empty and the dictionaries are defaultdict(list)), train_model.main and Screen.subset_observed "
+               "(C14 links the latter).")
 
 SDC = "sdc"
 INT = "interaction"
